@@ -75,6 +75,7 @@ type summary struct {
 	Samples      []interface{}  `json:"samples"`
 	Bridged      int            `json:"programs_over_255"`
 	DumpChecked  int            `json:"dump_checked"`
+	Oversize     int            `json:"oversize_cases_not_judged"`
 }
 
 var (
@@ -332,6 +333,11 @@ func runCase(h *polcase.Header, idx int, cs *polcase.Case, c *polcase.Conc, rng 
 		fail(f)
 		return
 	}
+	if !cs.Reject && cs.Model.Err == "" && len(cs.Model.Prog) > 4096 {
+		// a defect-free policy that does not fit the kernel's limit: the statement leaves the outcome open
+		sum.Oversize++
+		return
+	}
 	if (err != nil) != cs.Reject {
 		f := base
 		f.Kind = "accept"
@@ -417,7 +423,7 @@ func runCase(h *polcase.Header, idx int, cs *polcase.Case, c *polcase.Conc, rng 
 			f := base
 			f.Kind, f.Why, f.Program = "invalid", fmt.Sprintf("the program can return %#x, which is neither the default, a group action nor ERRNO(ENOSYS)", v), render(raw)
 			fail(f)
-			return
+			break // the program is still executable: the events below are run all the same
 		}
 	}
 	if doDrift {
